@@ -73,7 +73,9 @@ def run(ctx: Ctx) -> int:
                "E(0.25) X1 X2\nELSE_CORRELATED_ERROR(0.125) X2 X0\nELSE_CORRELATED_ERROR(0.5) X0\nM 2 0 1",
                "E(0.5) X0\nELSE_CORRELATED_ERROR(0.5) X1\nELSE_CORRELATED_ERROR(0.25) X2\nELSE_CORRELATED_ERROR(0.125) X3\nELSE_CORRELATED_ERROR(0.75) X4\nM 0 1 2 3 4"]
     # a chain followed by other channels before it is finalized (the chain's bits are numbered at the finalize)
-    corpus = ["H_YZ 5\nRX 7\nE(0.25) Z7 Z5\nH 5 7\nMR(0.125) 7\nMX 5 7",
+    corpus = ["E(0.5) X0\nX_ERROR(0.25) 2\nELSE_CORRELATED_ERROR(1) X1\nM 0 1 2",
+              "E(0.25) X0 X1\nDEPOLARIZE1(0.125) 2\nELSE_CORRELATED_ERROR(0.5) X1\nM(0.125) 2\nELSE_CORRELATED_ERROR(1) X0\nM 0 1 2",
+              "H_YZ 5\nRX 7\nE(0.25) Z7 Z5\nH 5 7\nMR(0.125) 7\nMX 5 7",
                "H 0\nSQRT_X 2\nH 5\nE(0.125) Z5\nELSE_CORRELATED_ERROR(0.25) Y5\nSQRT_ZZ 2 5 2 0\nSQRT_X 2 5\nPAULI_CHANNEL_1(0.0, 0.0, 0.5) 5\nZ 5 2\nT_DAG 2\nH_XZ 2 0\nMX 0 2 5",
                "H 0\nE(0.25) X0\nX_ERROR(0.125) 0\nELSE_CORRELATED_ERROR(0.5) Z0\nDEPOLARIZE1(0.25) 0\nM 0\nE(0.5) Y0\nM(0.125) 0\nMX 0"] + corpus
     cases = [(t, {"corpus": 1}, False) for t in corpus]
